@@ -2,6 +2,8 @@ package main
 
 import (
 	"fmt"
+	"math/big"
+	"strconv"
 	"strings"
 )
 
@@ -132,6 +134,11 @@ func genPtrCase(r *rng, id string) *ValCase {
 			}
 			if last != "" && last[0] >= '0' && last[0] <= '9' && !strings.Contains(head[:len(head)-1], "properties") && !strings.Contains(head, "efs/") && !strings.Contains(head, "definitions/") && !strings.Contains(head, "dependen") {
 				cands = append(cands, head+"+"+last, head+"0"+last, head+last+" ", head+"-"+last)
+				// the index plus a multiple of 2^64 / 2^32: must not wrap around to the same element
+				if n, err := strconv.Atoi(last); err == nil {
+					cands = append(cands, head+new(big.Int).Add(new(big.Int).Lsh(big.NewInt(1), 64), big.NewInt(int64(n))).String(),
+						head+new(big.Int).Add(new(big.Int).Lsh(big.NewInt(1), 32), big.NewInt(int64(n))).String())
+				}
 			}
 			cands = append(cands, l+"~", head+strings.ToUpper(last))
 		}
@@ -142,7 +149,8 @@ func genPtrCase(r *rng, id string) *ValCase {
 	if r.chance(1, 4) {
 		base := pick(r, g.locs)
 		bad := pick(r, []string{base + "/", base + "/nope", base + "/dependentRequired", base + "/allOf/-", base + "/allOf/+0", base + "/allOf/00",
-			base + "/allOf/99", base + "/prefixItems/-1", base + "/properties/~2", base + "/properties/~", base + "/NOT", base + "/not", base + "/items/0/0",
+			base + "/allOf/99", base + "/prefixItems/-1", base + "/allOf/18446744073709551616", base + "/allOf/18446744073709551617", base + "/prefixItems/18446744073709551616",
+			base + "/allOf/4294967296", base + "/allOf/4294967297", base + "/anyOf/99999999999999999999", base + "/allOf/0x0", base + "/allOf/1_0", base + "/allOf/1e0", base + "/properties/~2", base + "/properties/~", base + "/NOT", base + "/not", base + "/items/0/0",
 			strings.Replace(base, "/t", "/T", 1), base + "/$defs", base + "/type", "#/", "#//", base + "/properties/%", base + "/if/then"})
 		hold(bad)
 	}
